@@ -100,8 +100,6 @@ func NewRun(id, tier, replay string) *Run {
 		// a runaway case must kill its worker ("out of memory" crash), not the machine
 		lim := uint64(WorkerMemoryLimit)
 		syscall.Setrlimit(syscall.RLIMIT_AS, &syscall.Rlimit{Cur: lim, Max: lim})
-		// the usual descriptor limit: include cycles of the code under test end when it is reached
-		syscall.Setrlimit(syscall.RLIMIT_NOFILE, &syscall.Rlimit{Cur: 1024, Max: 1024})
 		go r.watchdog()
 	}
 	return r
@@ -114,6 +112,12 @@ func (r *Run) Pick(q, t int) int {
 		return t
 	}
 	return q
+}
+
+// LimitOpenFiles lowers the descriptor limit of this (worker) process: include cycles of the code under test
+// end when it is reached. Only for checks whose cases close what they open or retry after a collection.
+func LimitOpenFiles(n uint64) {
+	syscall.Setrlimit(syscall.RLIMIT_NOFILE, &syscall.Rlimit{Cur: n, Max: n})
 }
 
 // Inflight names the case about to be executed (for hang / crash attribution).
